@@ -623,8 +623,13 @@ class SF:
         if z3.is_rational_value(bv):
             q = a.v / bv if bv.as_fraction() != 0 else _ZERO
         else:
-            q = z3.Real(EX.fresh_name('quo'))
-            EX.add_axiom(z3.Implies(bv != 0, q * bv == a.v), 'div: q*b==a (b!=0)')
+            key = ('quo', canon(a.v).get_id(), canon(bv).get_id())
+            q = EX.apps.get(key)
+            if q is None:
+                q = z3.Real(EX.fresh_name('quo'))
+                EX.apps[key] = q
+                EX._keep.append((canon(a.v), canon(bv)))
+                EX.add_axiom(z3.Implies(bv != 0, q * bv == a.v), 'div: q*b==a (b!=0)')
         if binf is not False:
             q = z3.If(bz3(binf), _ZERO, q)
         return SF(bsimp(nan), q, pinf, ninf)
@@ -945,7 +950,7 @@ def concretize_int(si):
             return v
 
 
-def sym_trunc_int(x, strict=True):
+def sym_trunc_int(x, strict=True, nan_value=None):
     """int(x): truncation toward zero -> SI (fresh Int tied to x).
     strict (python int()): NaN/inf raise ValueError; non-strict (array casts): the result is an unconstrained int."""
     x = SF.lift(x)
@@ -954,15 +959,24 @@ def sym_trunc_int(x, strict=True):
         if c != c or c in (math.inf, -math.inf):
             if strict:
                 raise ValueError("cannot convert float NaN/inf to integer")
-            return SI(z3.Int(EX.fresh_name('poison')))
+            return SI.lift(nan_value) if nan_value is not None else SI(z3.Int(EX.fresh_name('poison')))
         return SI.lift(int(c))
     sp = x.special()
     if strict and sp is not False and bool(mkbool(sp)):
         raise ValueError("cannot convert float NaN/inf to integer")
-    n = z3.Int(EX.fresh_name('trunc'))
-    nr = z3.ToReal(n)
-    rel = z3.If(x.v >= 0, z3.And(nr <= x.v, x.v < nr + 1), z3.And(nr - 1 < x.v, x.v <= nr))
-    EX.add_axiom(rel if (strict or sp is False) else z3.Implies(z3.Not(bz3(sp)), rel), 'int(): truncation')
+    cv = canon(x.v)
+    key = ('trunc', cv.get_id())
+    n = EX.apps.get(key)
+    if n is None:
+        n = z3.Int(EX.fresh_name('trunc'))
+        EX.apps[key] = n
+        EX._keep.append(cv)
+        nr = z3.ToReal(n)
+        rel = z3.If(x.v >= 0, z3.And(nr <= x.v, x.v < nr + 1), z3.And(nr - 1 < x.v, x.v <= nr))
+        EX.add_axiom(rel if sp is False else z3.Implies(z3.Not(bz3(sp)), rel), 'int(): truncation')
+    if sp is not False and not strict and nan_value is not None:
+        # array casts of NaN / inf: the value this platform (x86-64 cvttsd2si, low bits kept) produces
+        return SI(z3.If(bz3(sp), z3.IntVal(nan_value), n))
     return SI(n)
 
 
@@ -1127,8 +1141,10 @@ def sym_sqrt(x):
     s, new = uf_app('sqrt', [x.v], mono=0)
     if new:
         a = EX.apps['sqrt'][-1][0][0]
-        ax = [s >= 0]
-        tags = ['s>=0']
+        # s >= 0 is stated unconditionally (for a negative argument the result is flagged NaN and s is never used)
+        EX.add_axiom(s >= 0, 'sqrt: s>=0')
+        ax = []
+        tags = []
         if AX['sqrt_zero']:
             ax.append((s == 0) == (a == 0))
             tags.append('s==0 iff x==0')
@@ -1138,7 +1154,8 @@ def sym_sqrt(x):
         if AX['sqrt_exact'] or SQRT_EXACT[0]:
             ax.append(s * s == a)
             tags.append('s*s==x')
-        EX.add_axiom(z3.Implies(a >= 0, z3.And(*ax)), 'sqrt: ' + ', '.join(tags))
+        if ax:
+            EX.add_axiom(z3.Implies(a >= 0, z3.And(*ax)), 'sqrt: ' + ', '.join(tags))
         if AX['sqrt_mono']:
             for (a2, v2) in EX.apps['sqrt'][:-1]:
                 EX.add_axiom(z3.Implies(z3.And(a >= 0, a2[0] >= 0), z3.And(z3.Implies(a < a2[0], s < v2), z3.Implies(a2[0] < a, v2 < s))), 'sqrt: strictly increasing')
